@@ -107,8 +107,12 @@ class RecomputingDict(MutableMapping[RuleKey, AbstractStrategy]):
                     continue
                 try:
                     start_label = self.classdb.get_label(rule.comb_class)
+                    # same cleaning as RuleDBBase._clean_labels: only rules that
+                    # are possibly empty lose their empty children
                     nonempty_children = tuple(
-                        c for c in rule.children if not self.classdb.is_empty(c)
+                        c
+                        for c in rule.children
+                        if not (rule.possibly_empty and self.classdb.is_empty(c))
                     )
                     end_labels = tuple(
                         sorted(map(self.classdb.get_label, nonempty_children))
